@@ -61,10 +61,15 @@ Expect(f, x, q) ==
     [] f = "contains_offset" -> <<{ContainsOff(x, q[1])}, {ContainsOff(x, q[1])}>>
     [] f = "contains_address" -> <<{ContainsAddr(x, q[1])}, {ContainsAddr(x, q[1])}>>
 
+\* lookups by name / by referent (C10) carry their own argument; everything else is a (start, stop, step) query
+MM(e) == IF e.f = "symbols_named" THEN <<SymbolsNamed(e.x, e.nm), SymbolsNamed(e.x, e.nm)>>
+         ELSE IF e.f = "references" THEN <<References(e.x), References(e.x)>>
+         ELSE Expect(e.f, e.x, e.q)
+
 Ascending(ans) == \A i \in 1..(Len(ans) - 1) : ans[i][2] < ans[i + 1][2]
 
 QOk(e) ==
-  LET mm == Expect(e.f, e.x, e.q)
+  LET mm == MM(e)
       A == ToSet(e.ans)
   IN /\ Cardinality(A) = Len(e.ans)                 \* each member exactly once
      /\ mm[1] \subseteq A /\ A \subseteq mm[2]
@@ -77,7 +82,7 @@ Judge ==
   \A k \in 1..Len(r.q) :
      \/ QOk(r.q[k])
      \/ PrintT(ToJson([bad |-> idx, k |-> k, f |-> r.q[k].f, x |-> r.q[k].x, q |-> r.q[k].q,
-                       ans |-> r.q[k].ans, must |-> Expect(r.q[k].f, r.q[k].x, r.q[k].q)[1],
-                       may |-> Expect(r.q[k].f, r.q[k].x, r.q[k].q)[2]]))
+                       ans |-> r.q[k].ans, must |-> MM(r.q[k])[1],
+                       may |-> MM(r.q[k])[2]]))
 Done == TLCGet("stats").generated >= 0 /\ PrintT(ToJson([judged |-> N]))
 =============================================================================
